@@ -122,6 +122,8 @@ structure Req (K : Type) where
   mat : List (List Expr)
   sig : List (List String)
   consts : List (String × Val K)
+  /-- constants that are arrays over the points (one value per point) -/
+  pconsts : List (String × List (Val K))
   repl : List (String × String)
   udefs : List UDef
   points : List (List (Val K))
@@ -136,6 +138,9 @@ def reqOfJson {K : Type} (num : Json → Except String K) (j : Json) : Except St
   let mat ← if rank == 2 then getL (getL exprOfJson) ej else pure []
   let sig ← getL (getL getS) (← fld j "sig")
   let consts ← getL (pairOfJson (valOfJson num)) (← fld j "consts")
+  let pconsts ← match fldOpt j "pconsts" with
+    | some v => getL (pairOfJson (getL (valOfJson num))) v
+    | none => pure []
   let repl ← getL (pairOfJson getS) (← fld j "repl")
   let udefs ← getL udefOfJson (← fld j "ufuncs")
   let points ← getL (getL (valOfJson num)) (← fld j "points")
@@ -145,7 +150,7 @@ def reqOfJson {K : Type} (num : Json → Except String K) (j : Json) : Except St
   let single ← match fldOpt j "single" with
     | some v => getB v
     | none => pure false
-  pure { rank, scalar, vec, mat, sig, consts, repl, udefs, points, dvars, single }
+  pure { rank, scalar, vec, mat, sig, consts, pconsts, repl, udefs, points, dvars, single }
 
 section
 variable {K : Type} [Add K] [Sub K] [Mul K] [Div K] [Neg K] [NatCast K] [IntCast K]
@@ -168,33 +173,42 @@ def callScalar (T : FunTab K) (r : Req K) (ok : Env K → Expr → Bool) (num : 
 /-- derivative of the *prepared* expression (the sympy expression after alias renaming is what
 `differentiate` differentiates), evaluated in the environment of the call -/
 def callDeriv (T : FunTab K) (r : Req K) (ok : Env K → Expr → Bool) (num : K → Json) (x : String)
-    (args : List (Val K)) : Json :=
-  let d := diff x (prepare r.sig r.repl r.scalar)
-  if checkSignature r.sig (r.consts.map Prod.fst) r.repl r.scalar && args.length == r.sig.length then
+    (e : Expr) (args : List (Val K)) : Json :=
+  let d := diff x (prepare r.sig r.repl e)
+  if checkSignature r.sig (r.consts.map Prod.fst) r.repl e && args.length == r.sig.length then
     let env := callEnv r.sig r.consts args
-    if ok env d && ok env (prepare r.sig r.repl r.scalar) then num (eval T env d) else Json.str "undef"
+    if ok env d && ok env (prepare r.sig r.repl e) then num (eval T env d) else Json.str "undef"
   else Json.str "rejected"
+
+/-- apply `f` to every component, keeping the array structure -/
+def shapeMap (r : Req K) (f : Expr → Json) : Json :=
+  match r.rank with
+  | 0 => f r.scalar
+  | 1 => Json.arr (r.vec.map f).toArray
+  | _ => Json.arr (r.mat.map (fun row => Json.arr (row.map f).toArray)).toArray
 
 def answer (T : FunTab K) (r : Req K) (ok : Env K → Expr → Bool) (num : K → Json) : Json :=
   let T' := withUser T r.udefs
-  let vals := r.points.map (fun args =>
-    match r.rank with
-    | 0 => callScalar T' r ok num r.scalar args
-    | 1 => Json.arr (r.vec.map (fun e => callScalar T' r ok num e args)).toArray
-    | _ => Json.arr (r.mat.map (fun row =>
-        Json.arr (row.map (fun e => callScalar T' r ok num e args)).toArray)).toArray)
-  let dvals := r.dvars.map (fun x => Json.arr (r.points.map (callDeriv T' r ok num x)).toArray)
-  let dexprs := r.dvars.map (fun x => exprToJson (diff x (prepare r.sig r.repl r.scalar)))
+  let atPt (i : Nat) : Req K :=
+    { r with consts := r.consts ++ r.pconsts.filterMap (fun p => (p.2[i]?).map (fun v => (p.1, v))) }
+  let pts := r.points.zipIdx
+  let vals := pts.map (fun (args, i) =>
+    shapeMap r (fun e => callScalar T' (atPt i) ok num e args))
+  let dvals := r.dvars.map (fun x =>
+    Json.arr (pts.map (fun (args, i) =>
+      shapeMap r (fun e => callDeriv T' (atPt i) ok num x e args))).toArray)
+  let dexprs := r.dvars.map (fun x =>
+    shapeMap r (fun e => exprToJson (diff x (prepare r.sig r.repl e))))
   Json.mkObj [("vals", Json.arr vals.toArray), ("dvals", Json.arr dvals.toArray),
               ("dexprs", Json.arr dexprs.toArray)]
 
 end
 
-def allExprs {K : Type} (r : Req K) : List Expr :=
-  (match r.rank with
-   | 0 => [r.scalar]
-   | 1 => r.vec
-   | _ => r.mat.flatten) ++ r.udefs.map (·.body)
+def mainExprs {K : Type} (r : Req K) : List Expr :=
+  match r.rank with
+  | 0 => [r.scalar]
+  | 1 => r.vec
+  | _ => r.mat.flatten
 
 /-- {"mode":"Q"|"F","rank":0|1|2,"expr":..,"sig":..,"consts":..,"repl":..,"ufuncs":..,
 "points":[[..]..],"diff":[..],"single":bool} -/
@@ -202,9 +216,8 @@ def evalReq (j : Json) : Except String Json := do
   let mode ← fldS j "mode"
   if mode == "Q" then
     let r ← reqOfJson getQ j
-    let u := r.udefs.map (·.name)
-    if !(allExprs r).all (rationalFragment u) then throw "not in the rational fragment"
-    if !(r.udefs.all (fun d => rationalFragment [] d.body)) then throw "user body not rational"
+    let u := (r.udefs.filter (fun d => rationalFragment [] d.body)).map (·.name)
+    if !(mainExprs r).all (rationalFragment u) then throw "not in the rational fragment"
     let T : FunTab Rat := algTab
     let dT := withUser T r.udefs
     pure (answer T r (fun env e => defined dT env e) jQ)
@@ -212,7 +225,8 @@ def evalReq (j : Json) : Except String Json := do
     let r ← reqOfJson getF j
     let u1 := (r.udefs.filter (fun d => d.params.length == 1)).map (·.name)
     let u2 := (r.udefs.filter (fun d => d.params.length == 2)).map (·.name)
-    if !(allExprs r).all (knownFuns u1 u2) then throw "uninterpreted function or constant"
+    if !(mainExprs r ++ r.udefs.map (·.body)).all (knownFuns u1 u2) then
+      throw "uninterpreted function or constant"
     pure (answer floatTab r (fun _ _ => true) jF)
 
 /-- {"expr":..,"x":".."} -> AST of `diff x expr` -/
